@@ -34,7 +34,10 @@ typed trees with several kinds, calc_data_id hooks), a multi-step history, two c
 Strongly prefer one of these harder kinds of change: (1) TWO cooperating edits at different sites that each look harmless alone;
 (2) a change that only manifests after a multi-step history (three or more operations, e.g. a stale cache / index entry that a
 LATER call trips over); (3) a change that only manifests under a documented but unusual argument, option or data flavour that
-everyday use does not touch. Avoid single-token flips of the kind listed below.
+everyday use does not touch; (4) state that ends up in, or is read from, an object the APPLICATION owns or re-uses between calls;
+(5) an override in a subclass (TypedNode / TypedTree / FileSystemTree) drifting from its base-class behaviour; (6) the interplay of two
+public features (clones + sort, filter + clones, move + metadata, copy + custom ids, ...), or edge positions (first / last sibling, top
+level, empty tree, single node, deepest level). Avoid single-token flips of the kind listed below.
 Prefer places and mechanisms DIFFERENT from these, which were already tried for this property:
 """ + "".join(f"  - {t}\n" for t in tried.get(pid, [])) + f"""
 Deliver, in {out}/:
